@@ -32,7 +32,11 @@ RULE = ("PIN sweep: the compared secret at boundary values (0000, 0001, 9999) an
         "every await point (connect + every reply) x every fault kind/variant applicable at that point (error reply, "
         "wrong PIN, dropped reply, garbage frame/body, each required field missing, disconnect), plus the fault-free "
         "run; non-trivial = a fault was injected after at least one successful reply or the run is fault-free; "
-        "distinct = (handler, prior credentials, index, kind, variant)")
+        "initial state: (service.credentials, settings credentials) over {none, A, B}^2 - quick tier: NN and AA in "
+        "full, one fault per await point (alternating connection/pairing class) for the seven others; thorough: "
+        "all nine in full; faults inside sealed sub-messages (pair-setup M6, pair-verify M2): each required inner "
+        "field missing, empty and garbage plaintext, sealed correctly by the fake device; "
+        "distinct = (handler, initial state, index, kind, variant)")
 ASSUMPTIONS = [
     "\"pairing or connection error\" = exceptions.PairingError, ConnectionFailedError, ConnectionLostError or a builtin "
     "OSError (ConnectionRefusedError from the unwrapped http_connect in AirPlayPairingHandler.begin, TimeoutError); "
@@ -425,7 +429,31 @@ def variants_for(reply, is_proof_reply):
             out += [("missing", f) for f in reply.fields]
     if is_proof_reply:
         out.append(("wrongpin", "-"))
+    for field in INNER_FIELDS.get(reply.label, []):
+        out.append(("missing", "inner:" + field))
+    if reply.label in INNER_FIELDS:
+        out += [("missing", "inner:all"), ("garbage", "inner")]
     return out
+
+
+# Replies whose EncryptedData is a sealed sub-TLV, the fields the HAP specification requires
+# inside it, and the nonce the device seals it with (pair-setup M6, pair-verify M2).
+INNER_FIELDS = {"setup:m6": ["identifier", "pubkey", "signature"], "verify:m2": ["identifier", "signature"]}
+INNER_NONCE = {"setup:m6": b"PS-Msg06", "verify:m2": b"PV-Msg02"}
+
+
+def mutate_inner(plain, variant, rng):
+    """The fault applied to the PLAINTEXT of a sub-message before the fake device seals it."""
+    from pyatv.auth.hap_tlv8 import TlvValue, read_tlv, write_tlv
+    tags = {"identifier": int(TlvValue.Identifier), "pubkey": int(TlvValue.PublicKey),
+            "signature": int(TlvValue.Signature)}
+    if variant == "inner":
+        return _garbage_tlv(rng, list(tags.values()))
+    field = variant.split(":", 1)[1]
+    if field == "all":
+        return b""
+    tlv = read_tlv(plain)
+    return write_tlv({k: v for k, v in tlv.items() if k != tags[field]})
 
 
 def mutate(codec, reply, kind, variant, rng):
@@ -471,6 +499,8 @@ class World:
         self.refuse_connect = bool(fault and fault[0] == 0)
         self.injected = False
         self.inverted = False         # DMAP: the handler is the listening side
+        self.inner = bool(fault and str(fault[2]).startswith("inner"))
+        self.inner_done = False
 
     def on_client_write(self, link, data):
         if not self.inverted:
@@ -494,6 +524,10 @@ class World:
         """Register one reply of the device; returns "pass" or what to deliver instead."""
         idx = len(self.replies) + 1
         self.replies.append(reply)
+        if self.fault and self.fault[0] == idx and self.inner:
+            self.injected = self.inner_done      # the sub-message was altered before sealing
+            self.events.append("fault")
+            return "pass"
         if self.fault and self.fault[0] == idx and self.fault[1] != "wrongpin":
             self.injected = True
             self.events.append("fault")
@@ -533,11 +567,34 @@ CONFIGS = {
 }
 
 
-def _old_creds(name):
+def _old_creds(name, which="A"):
+    """two different, valid older credentials per handler"""
     from pyatv.auth.server_auth import CLIENT_CREDENTIALS
+    if name == "dmap":
+        return OLD_DMAP_CREDS if which == "A" else "0x0000000000000043"
     if name.endswith("legacy"):
-        return OLD_LEGACY_CREDS
-    return CLIENT_CREDENTIALS
+        return OLD_LEGACY_CREDS if which == "A" else "8899AABBCCDDEEFF:" + "cd" * 32
+    if which == "A":
+        return CLIENT_CREDENTIALS
+    parts = CLIENT_CREDENTIALS.split(":")
+    parts[1] = parts[1][:-2] + ("00" if parts[1][-2:] != "00" else "11")   # another long-term key
+    parts[3] = parts[3][:-2] + "42"                                         # another client id
+    return ":".join(parts)
+
+
+def norm_prior(prior):
+    """initial state as two letters (service, settings) over N(one) / A / B"""
+    if isinstance(prior, str):
+        return prior
+    return "AA" if prior else "NN"
+
+
+def prior_values(name, prior):
+    st = norm_prior(prior)
+    return tuple(None if ch == "N" else _old_creds(name, ch) for ch in st)
+
+
+PRIOR_COMBOS = [a + b for a in "NAB" for b in "NAB"]
 
 
 def _peer_factory(name, loop, state_box, device_pin=None):
@@ -630,13 +687,13 @@ async def _pair_client(name, prior, fault, world, loop, pins=None):
     protocol = getattr(Protocol, proto_name)
     props = {"features": features} if features else {}
     service = ManualService("c08_id", protocol, PORT, props)
-    old = _old_creds(name) if prior else None
+    old, old_settings = prior_values(name, prior)
     service.credentials = old
     conf = AppleTV("127.0.0.1", "C08 device")
     conf.add_service(service)
     storage = MemoryStorage()
     settings = await storage.get_settings(conf)
-    setattr(getattr(settings.protocols, slot), "credentials", old)
+    setattr(getattr(settings.protocols, slot), "credentials", old_settings)
     for other in ("airplay", "companion", "dmap", "mrp", "raop"):
         if other != slot:
             getattr(settings.protocols, other).credentials = "untouched-" + other
@@ -646,7 +703,7 @@ async def _pair_client(name, prior, fault, world, loop, pins=None):
     if pins is not None:
         pin = pins[1]             # what the user types: int or 4-digit string
 
-    obs = {"prior": old, "slot": slot}
+    obs = {"prior": old, "prior_settings": old_settings, "slot": slot}
     patches = []
     if name.endswith("legacy"):
         from tests.fake_device.airplay import DEVICE_AUTH_KEY, DEVICE_IDENTIFIER
@@ -711,6 +768,7 @@ def run_one(name, prior, fault, rng, pins=None):
         return await _pair_client(name, prior, fault, world, loop, pins)
 
     logging.disable(logging.CRITICAL)
+    unhook = _hook_sealing(world) if world.inner else (lambda: None)
     try:
         asyncio.set_event_loop(loop)
         try:
@@ -725,6 +783,7 @@ def run_one(name, prior, fault, rng, pins=None):
         obs["peer_verified"] = bool(peer.has_authenticated) if (name == "mrp" and peer is not None) else None
         return obs
     finally:
+        unhook()
         logging.disable(logging.NOTSET)
         try:
             pending = [t for t in asyncio.all_tasks(loop) if not t.done()]
@@ -736,6 +795,29 @@ def run_one(name, prior, fault, rng, pins=None):
             pass
         asyncio.set_event_loop(None)
         loop.close()
+
+
+def _hook_sealing(world):
+    """While the fake device builds the reply with the fault's index, alter the plaintext of the
+    sub-message it seals (nonce PS-Msg06 / PV-Msg02); everything else is encrypted as usual."""
+    from pyatv.support import chacha20
+    cls = chacha20.Chacha20Cipher
+    orig = cls.encrypt
+    nonces = set(INNER_NONCE.values())
+
+    def encrypt(self, data, nonce=None, aad=None):
+        if (nonce is not None and bytes(nonce) in nonces and not world.inner_done
+                and len(world.replies) + 1 == world.fault[0]):
+            world.inner_done = True
+            data = mutate_inner(bytes(data), world.fault[2], world.rng)
+        return orig(self, data, nonce, aad)
+
+    cls.encrypt = encrypt
+
+    def unhook():
+        cls.encrypt = orig
+
+    return unhook
 
 
 # ------------------------------------------------------------------------------------------
@@ -831,17 +913,17 @@ def run_dmap(prior, fault, rng, pins=None):
         from tests.zeroconf_stub import ZeroconfStub
 
         service = ManualService("c08_id", Protocol.DMAP, 3689, {})
-        old = OLD_DMAP_CREDS if prior else None
+        old, old_settings = prior_values("dmap", prior)
         service.credentials = old
         conf = AppleTV("127.0.0.1", "C08 device")
         conf.add_service(service)
         storage = MemoryStorage()
         settings = await storage.get_settings(conf)
-        settings.protocols.dmap.credentials = old
+        settings.protocols.dmap.credentials = old_settings
         for other in ("airplay", "companion", "mrp", "raop"):
             getattr(settings.protocols, other).credentials = "untouched-" + other
         zeroconf = ZeroconfStub([])
-        obs = {"prior": old, "slot": "dmap"}
+        obs = {"prior": old, "prior_settings": old_settings, "slot": "dmap"}
         handler = await pyatv.pair(conf, Protocol.DMAP, loop, storage=storage, zeroconf=zeroconf,
                                    pairing_guid=DMAP_GUID, name="c08 remote", addresses=["127.0.0.1"])
         try:
@@ -910,9 +992,10 @@ HANDLERS = ["mrp", "companion", "airplay-hap", "airplay-legacy", "raop-hap", "ra
 PROOF_REPLY = {"setup:m4": True, "legacy:proof": True}
 
 
-def fault_space(name, prior, rng):
+def fault_space(name, prior, rng, base=None):
     """Recon: fault-free run on the real code -> (observation, [(index, kind, variant)])."""
-    base = run_one(name, prior, None, rng.fork("recon"))
+    if base is None:
+        base = run_one(name, prior, None, rng.fork("recon"))
     if name == "dmap":
         return base, [(0, k, v) for k, v in dmap_variants()]
     faults = [(0, "disconnect", "refused")]
@@ -923,7 +1006,7 @@ def fault_space(name, prior, rng):
 
 
 def script_name(name, prior):
-    return "companion-reauth" if (name == "companion" and prior) else name
+    return "companion-reauth" if (name == "companion" and norm_prior(prior)[0] != "N") else name
 
 
 def label_of(name, base, idx):
@@ -947,9 +1030,20 @@ def canon_obs(obs):
     else:
         outcome = "error:other"
     old = obs.get("prior")
+    old_settings = obs.get("prior_settings", old)
     settings = obs.get("settings") or {}
-    return "%s %d %d %d" % (outcome, obs.get("svc") != old, settings.get(obs.get("slot")) != old,
+    return "%s %d %d %d" % (outcome, obs.get("svc") != old, settings.get(obs.get("slot")) != old_settings,
                             bool(obs.get("paired")))
+
+
+def canon_values(name, obs):
+    """(outcome, service value, settings value, paired) with values 0 none / 1 A / 2 B / 9 other"""
+    if obs.get("harness_error"):
+        return "harness-error " + obs["harness_error"]
+    ids = {None: "0", _old_creds(name, "A"): "1", _old_creds(name, "B"): "2"}
+    settings = obs.get("settings") or {}
+    return "%s %s %s %d" % (canon_obs(obs).split(" ")[0], ids.get(obs.get("svc"), "9"),
+                            ids.get(settings.get(obs.get("slot")), "9"), bool(obs.get("paired")))
 
 
 def canon_model(ans):
@@ -968,6 +1062,7 @@ def oracle(name, obs, fault):
     if obs.get("harness_error"):
         return [("harness-error", obs["harness_error"])]
     old = obs.get("prior")
+    old_settings = obs.get("prior_settings", old)
     slot = obs.get("slot")
     settings = obs.get("settings") or {}
     stored = obs.get("stored_settings") or settings
@@ -979,7 +1074,7 @@ def oracle(name, obs, fault):
             return out
         if not obs.get("paired"):
             out.append(("success-not-reported", "fault-free exchange completed but has_paired is false"))
-        if not obs.get("svc") or obs.get("svc") == old:
+        if not obs.get("svc") or obs.get("svc") in (old, old_settings):
             out.append(("success-service-not-written", "service.credentials not written after a complete exchange"))
         if settings.get(slot) != obs.get("svc") or stored.get(slot) != obs.get("svc"):
             out.append(("success-settings-not-written", "settings.protocols.%s.credentials differs from service.credentials" % slot))
@@ -1007,8 +1102,8 @@ def oracle(name, obs, fault):
         out.append(("has-paired-true", "has_paired is true after a failed exchange"))
     if obs.get("svc") != old:
         out.append(("service-credentials-changed", "service.credentials %r -> %r after a failed exchange" % (old, obs.get("svc"))))
-    if settings.get(slot) != old or stored.get(slot) != old:
-        out.append(("settings-credentials-changed", "settings.protocols.%s.credentials %r -> %r after a failed exchange" % (slot, old, settings.get(slot))))
+    if settings.get(slot) != old_settings or stored.get(slot) != old_settings:
+        out.append(("settings-credentials-changed", "settings.protocols.%s.credentials %r -> %r after a failed exchange" % (slot, old_settings, settings.get(slot))))
     if others:
         out.append(("other-settings-changed", "credentials of other protocols changed: %s" % others))
     return out
@@ -1039,7 +1134,7 @@ def probe_error_handler():
 
 
 def case_rng(ctx, name, prior, fault, rep=0):
-    return ctx.rng.fork(name, int(prior), *(fault or ("none",)), rep)
+    return ctx.rng.fork(name, norm_prior(prior), *(fault or ("none",)), rep)
 
 
 def evaluate(ctx, name, prior, fault, base, rep=0, pins=None):
@@ -1047,11 +1142,11 @@ def evaluate(ctx, name, prior, fault, base, rep=0, pins=None):
     obs = run_one(name, prior, fault, case_rng(ctx, name, prior, fault, rep), pins)
     idx, kind, variant = fault if fault else (None, None, None)
     label = label_of(name, base or obs, idx) if fault else "-"
-    case = {"handler": name, "prior": bool(prior), "index": idx, "message": label, "kind": kind,
+    case = {"handler": name, "prior": norm_prior(prior), "index": idx, "message": label, "kind": kind,
             "variant": variant, "rep": rep}
     if pins is not None:
         case["pins"] = [pins[0], list(pins[1]) if isinstance(pins[1], (tuple, list)) else pins[1]]
-    summary = {k: obs.get(k) for k in ("err", "exc_name", "exc_text", "where", "paired", "svc", "prior", "events")}
+    summary = {k: obs.get(k) for k in ("err", "exc_name", "exc_text", "where", "paired", "svc", "prior", "prior_settings", "events")}
     summary["settings"] = (obs.get("settings") or {}).get(obs.get("slot"))
     for tag, text in oracle(name, obs, fault):
         sig = "%s:%s:%s:%s" % (name, label if fault else "fault-free", kind or "none", tag)
@@ -1061,29 +1156,52 @@ def evaluate(ctx, name, prior, fault, base, rep=0, pins=None):
     return case, obs
 
 
+def reduced_faults(ctx, name, combo, faults):
+    """One fault per await point for the initial states that are not enumerated in full in the
+    quick tier: alternately the dropped reply (a connection error) and a seed-chosen other kind
+    (a pairing error), so that each combination sees both error classes in begin() and finish()."""
+    by_index = {}
+    for f in faults:
+        by_index.setdefault(f[0], []).append(f)
+    rng = ctx.rng.fork("reduced", name, combo)
+    flip = rng.randrange(2)
+    out = []
+    for i in sorted(by_index):
+        dropped = [f for f in by_index[i] if f[1] == "dropped" or f[2] == "refused"]
+        others = [f for f in by_index[i] if f not in dropped]
+        pool = dropped if ((i + flip) % 2 == 0 and dropped) else (others or dropped)
+        out.append(rng.choice(pool))
+    return out
+
+
 def run(ctx, only=None):
     ctx.exhaustive = True
     lines, pending = [], []
     reps = ctx.scale(1, 3)
+    ids = {"N": "0", "A": "1", "B": "2"}
     for name in HANDLERS:
-        for prior in (False, True):
-            if only is not None and (name, bool(prior)) != (only["handler"], only["prior"]):
+        for prior in PRIOR_COMBOS:
+            if only is not None and (name, norm_prior(only["prior"])) != (only["handler"], prior):
                 continue
+            full = ctx.thorough or prior in ("NN", "AA")
             script = script_name(name, prior)
-            base, faults = fault_space(name, prior, ctx.rng.fork(name, int(prior)))
             if only is not None:
+                base, faults = fault_space(name, prior, ctx.rng.fork(name, prior))
                 fault = None if only["index"] is None else (only["index"], only["kind"], only["variant"])
                 evaluate(ctx, name, prior, fault, base, only.get("rep", 0), only.get("pins"))
                 continue
-            # --- fault-free run: trace, applicability table, success clause
-            case, obs = evaluate(ctx, name, prior, None, base)
-            ctx.case(["free", name, prior], True, sample={"handler": name, "prior": bool(prior), "events": obs.get("events")})
+            init = "%s %s" % (ids[prior[0]], ids[prior[1]])
+            # --- fault-free run (also the recon of the fault space): trace, applicability, success
+            case, obs = evaluate(ctx, name, prior, None, None)
+            base, faults = fault_space(name, prior, None, base=obs)
+            ctx.case(["free", name, prior], True, sample={"handler": name, "prior": prior, "events": obs.get("events")})
             ctx.note("handler:" + name)
+            ctx.note("initial:" + prior)
             trace = [e for e in obs.get("events", []) if e != "listen"]
             lines.append("trace " + script)
             pending.append(("trace", case, ",".join(trace) or "-"))
-            lines.append("run %s - -" % script)
-            pending.append(("run", case, canon_obs(obs)))
+            lines.append("runinit %s - - %s" % (script, init))
+            pending.append(("runinit", case, canon_values(name, obs)))
             per_index = {}
             for (i, k, _v) in faults:
                 per_index.setdefault(i, set()).add(k)
@@ -1092,18 +1210,19 @@ def run(ctx, only=None):
                 lines.append("app %s %d" % (script, i))
                 want = ",".join(sorted(per_index[i])) if i in per_index else "none"
                 pending.append(("app", dict(case, index=i), want))
-            # --- every await point x every applicable fault kind / variant
-            for fault in faults:
-                nrep = reps if fault[1] == "garbage" else 1
+            # --- every await point x every applicable fault kind / variant (quick tier: in full for
+            #     the initial states NN and AA, one fault per await point for the seven others)
+            for fault in (faults if full else reduced_faults(ctx, name, prior, faults)):
+                nrep = reps if (fault[1] == "garbage" and full) else 1
                 for rep in range(nrep):
                     case, obs = evaluate(ctx, name, prior, fault, base, rep)
                     ctx.case([name, prior, list(fault), rep], fault[0] >= 2 or name == "dmap",
                              sample={"case": case, "raised": obs.get("exc_name"), "where": obs.get("where"),
                                      "paired": obs.get("paired")})
-                    ctx.note("kind:" + fault[1])
+                    ctx.note("kind:" + fault[1] + (":inner" if str(fault[2]).startswith("inner") else ""))
                     ctx.note("class:" + str(obs.get("err")))
-                    lines.append("run %s %d %s" % (script, fault[0], fault[1]))
-                    pending.append(("run", case, canon_obs(obs)))
+                    lines.append("runinit %s %d %s %s" % (script, fault[0], fault[1], init))
+                    pending.append(("runinit", case, canon_values(name, obs)))
     if only is not None:
         return
     pin_sweep(ctx, lines, pending)
@@ -1114,7 +1233,7 @@ def run(ctx, only=None):
     answers = ctx.lean(lines)
     for (what, case, impl), ans, line in zip(pending, answers, lines):
         model = ans
-        if what == "run":
+        if what in ("run", "runinit"):
             model = canon_model(ans)
         elif what == "trace":
             model = ",".join(x for x in ans.split(",") if x != "guard")
@@ -1143,9 +1262,9 @@ def pin_values(ctx, name):
 
 def wrong_pins(ctx, name, pin):
     rng = ctx.rng.fork("wrong", name, pin)
-    cand = [(pin + 1) % 10000, (pin - 1) % 10000, rng.randrange(0, 10000)]
+    cand = [(pin + 1) % 10000, rng.randrange(0, 10000)]
     if ctx.thorough:
-        cand += [(pin * 10) % 10000, (pin + 1000) % 10000, 0, 9999, rng.randrange(0, 10000)]
+        cand += [(pin - 1) % 10000, (pin * 10) % 10000, (pin + 1000) % 10000, 0, 9999, rng.randrange(0, 10000)]
     out = []
     for w in cand:
         if w != pin and w not in out:
@@ -1159,9 +1278,9 @@ def pin_sweep(ctx, lines, pending):
     fault.  HAP handlers: the fake device displays the PIN, the user types it as int and as
     4-digit string.  DMAP: the PIN is given to pin(), the device sends the pairing code."""
     for name in PIN_HANDLERS:
-        for prior in ((False, True) if ctx.thorough else (True,)):
+        for prior in (("NN", "AA", "BA") if ctx.thorough else ("AB",)):
             script = script_name(name, prior)
-            base = run_one(name, prior, None, ctx.rng.fork(name, int(prior), "recon"))
+            base = run_one(name, prior, None, ctx.rng.fork(name, prior, "recon"))
             proof = next((i for i, r in enumerate(base.get("replies", []), 1) if PROOF_REPLY.get(r.label)), None)
             if proof is None:
                 ctx.disagree({"handler": name}, "no proof reply in the real exchange", "proof index expected", where="pins")
@@ -1180,7 +1299,7 @@ def pin_sweep(ctx, lines, pending):
                     ctx.note("pin:" + ("boundary" if pin in (0, 1, 9999) else "other") + (":wrong" if fault else ":right"))
                     lines.append("runpin %s %d %d" % (script, pin, typed_val))
                     pending.append(("run", case, canon_obs(obs)))
-    for prior in (False, True):
+    for prior in ("NN", "AB"):
         for pin in pin_values(ctx, "dmap"):
             plans = [(None, (pin, ("pin", pin)), "runpin dmap %d %d" % (pin, pin))]
             for w in wrong_pins(ctx, "dmap", pin):
